@@ -158,7 +158,7 @@ def periodic(seed, n, length=16):
                 items = []
                 for _ in range(rng.randint(1, 4)):
                     s = rng.choice(live + [0])
-                    items.append((s, "" if s else str(rng.choice([99, 2 ** 33])), rng.randint(1, 4), rng.choice([1, 2, 4, 8, 64, 128, 256, 512, 1024, 4096, 65536])))
+                    items.append((s, "" if s else str(rng.choice([99, 2 ** 33])), rng.randint(1, 4), rng.choice([1 << b for b in range(18)])))
                 g.events.append(krep(items))
             elif c < 0.85:
                 g.delete(rng.choice(live))
